@@ -890,7 +890,21 @@ func (x *Exec) appendOp(s, t Val, sliceT types.Type, st *State, reach string) Va
 			st.Set(name, sort, Store(a, obj, row))
 		} else {
 			row := x.sc.Fresh("approw", "(Array Int "+l.Sort+")")
-			x.sc.Assume(reach, "(forall ((i Int)) (! (=> (and (<= 0 i) (< i "+s.L[2]+")) (= (select "+row+" i) "+Select(Select(a, s.L[0]), "(+ "+s.L[1]+" i)")+")) :pattern ((select "+row+" i))))")
+			// two triggers: a read of the new row, or a read of the old slice's element (so that
+			// a fact known about an old element carries over to the copy)
+			src := Select(Select(a, s.L[0]), "(+ "+s.L[1]+" i)")
+			pats := ":pattern ((select " + row + " i))"
+			if !strings.ContainsAny(src, "=<>") && !strings.Contains(src, "(ite ") && !strings.Contains(src, "(and ") && !strings.Contains(src, "(or ") && !strings.Contains(src, "(not ") {
+				pats += " :pattern (" + src + ")"
+			}
+			x.sc.Assume(reach, "(forall ((i Int)) (! (=> (and (<= 0 i) (< i "+s.L[2]+")) (= (select "+row+" i) "+src+")) "+pats+"))")
+			if n >= 0 && n <= maxArrayLen {
+				// ground instances of the second axiom for the appended elements
+				for j := int64(0); j < n; j++ {
+					js := fmt.Sprintf("%d", j)
+					x.sc.Assume(reach, Eq("(select "+row+" "+add(s.L[2], js)+")", Select(Select(a, t.L[0]), add(t.L[1], js))))
+				}
+			}
 			x.sc.Assume(reach, "(forall ((i Int)) (! (=> (and (<= "+s.L[2]+" i) (< i "+newLen+")) (= (select "+row+" i) "+Select(Select(a, t.L[0]), "(+ "+t.L[1]+" (- i "+s.L[2]+"))")+")) :pattern ((select "+row+" i))))")
 			st.Set(name, sort, Store(a, obj, row))
 		}
